@@ -27,7 +27,7 @@ run_demo() {
     for f in "$SRC"/demo/*_test.go; do rm -f "luahelper-lsp/langserver/$(basename "$f")"; done
   else
     ( cd luahelper-lsp && go build -o "$WT/lualsp" . ) || return 2
-    for py in "$SRC"/demo/demo_*.py "$SRC"/demo/stdio_demo.py; do
+    for py in "$SRC"/demo/demo*.py "$SRC"/demo/stdio*.py; do
       [ -f "$py" ] || continue
       python3 "$py" "$WT/lualsp" > "$WT/demo.log" 2>&1 || rc=1
     done
